@@ -416,11 +416,29 @@ class State(object):
         a = self.H(self.set_key(es), z3.ArraySort(z3.IntSort(), z3.ArraySort(es, z3.BoolSort())))
         return z3.Select(a, ref)
 
-    def set_store(self, ref, et, sv):
+    def set_store(self, ref, et, sv, card=None):
         es = T.sort_of(et)
         k = self.set_key(es)
         a = self.H(k, z3.ArraySort(z3.IntSort(), z3.ArraySort(es, z3.BoolSort())))
         self.heap[k] = z3.Store(a, ref, sv)
+        # ghost cardinality map (len(set)); unknown (>= 0) unless the operation determines it
+        ck = '$scard:' + T.sort_name(es)
+        if ck in self.heap or card is not None:
+            ca = self.H(ck, z3.ArraySort(z3.IntSort(), z3.IntSort()))
+            if card is None:
+                card = self.fresh(z3.IntSort(), 'card')
+            self.heap[ck] = z3.Store(ca, ref, card)
+
+    def set_card(self, ref, et):
+        es = T.sort_of(et)
+        ck = '$scard:' + T.sort_name(es)
+        ca = self.H(ck, z3.ArraySort(z3.IntSort(), z3.IntSort()))
+        c = z3.Select(ca, ref)
+        sv = self.set_val(ref, et)
+        # heap type invariant of sets: cardinality >= 0 and zero exactly for the empty set
+        self.assume(c >= 0)
+        self.assume((c == 0) == (sv == z3.K(es, False)))
+        return c
 
     # dict: ordered keys (seq) + map + membership
     def dict_parts(self, ref, kt, vt):
@@ -511,7 +529,7 @@ class State(object):
             es = T.sort_of(ty.args[0])
             self.list_store(v.z, ty.args[0], SeqV(self.fresh(z3.ArraySort(z3.IntSort(), es), 'empty'), z3.IntVal(0)))
         elif ty.kind == 'set':
-            self.set_store(v.z, ty.args[0], z3.K(T.sort_of(ty.args[0]), False))
+            self.set_store(v.z, ty.args[0], z3.K(T.sort_of(ty.args[0]), False), z3.IntVal(0))
         elif ty.kind == 'dict':
             kt, vt = ty.args
             keys, mp, has = self.dict_parts(v.z, kt, vt)
